@@ -23,8 +23,8 @@ AST extraction from pyipmi/interfaces/{rmcp,ipmbdev,aardvark}.py of the working 
   * `_inc_sequence_number`:  self.next_sequence_number = (self.next_sequence_number + I) % M
   * initial `next_sequence_number`, default / fixed `max_retries`, `timeout` (as 1/64 s ticks)
   * the comparison operator of every retry loop (`<=` -> budget max_retries + 1, `<` -> max_retries)
-  * the Send Message command id the bridged branch tests for (`constants.CMDID_SEND_MESSAGE`)
-  * the byte index tested against it and the bounds of the returned slice `rx_data[a:-b]`
+  * the Send Message command id (`constants.CMDID_SEND_MESSAGE`) and network function (`constants.NETFN_APP`)
+  * the bounds of the returned slice `rx_data[a:-b]`
 
 Fails closed: a constant that cannot be read keeps the value of the pinned source (so that the models still
 build and the correspondence run shows where the changed code differs), `notExtracted` counts them
@@ -152,7 +152,9 @@ def _ticks(v, what):
 
 
 def _rmcp_slice_and_index(fn, rel):
-    """`return <name>[a:-b]` and `…[i] == constants.CMDID_SEND_MESSAGE`."""
+    """`return <name>[a:-b]`.  (The pinned source also had the test `array('B', rx_data)[5] == constants.
+    CMDID_SEND_MESSAGE` in the loop; since fixes/C09-1.diff a Send Message response is recognised by rx_filter
+    against the outstanding Send Message request - the statement itself is part of the SHAPE.)"""
     rets = [n for n in ast.walk(fn) if isinstance(n, ast.Return) and n.value is not None]
     if len(rets) != 1:
         raise TieBroken('%s:%s: %d return statements' % (rel, fn.name, len(rets)))
@@ -165,22 +167,14 @@ def _rmcp_slice_and_index(fn, rel):
     if not ok:
         raise TieBroken('%s:%s: return value is not <name>[a:-b]' % (rel, fn.name))
     lo, hi = int(v.slice.lower.value), int(v.slice.upper.operand.value)
-    idx = []
-    for n in ast.walk(fn):
-        if (isinstance(n, ast.Compare) and len(n.ops) == 1 and isinstance(n.ops[0], ast.Eq)
-                and isinstance(n.comparators[0], ast.Attribute)
-                and n.comparators[0].attr == 'CMDID_SEND_MESSAGE'
-                and isinstance(n.left, ast.Subscript) and isinstance(n.left.slice, ast.Constant)):
-            idx.append(int(n.left.slice.value))
-    if len(idx) != 1:
-        raise TieBroken('%s:%s: expected one test `…[i] == constants.CMDID_SEND_MESSAGE`' % (rel, fn.name))
-    return lo, hi, idx[0]
+    return lo, hi
 
 
 # ======================================================================== shape (tiny loop AST)
 # must list the constructors of `Sym` in lean/PyIpmi/Model/LoopAst.lean
-SYMS = {'CMDID_SEND_MESSAGE', 'IOError', 'IpmbHeaderReq', 'IpmiTimeoutError', 'RetryError', '_dev',
-        '_inc_sequence_number', '_q', '_receive_ipmi_msg', '_receive_raw', '_send_ipmi_msg', '_send_raw', 'array',
+SYMS = {'CMDID_SEND_MESSAGE', 'NETFN_APP', 'IOError', 'OSError', 'IpmbHeaderReq', 'IpmiTimeoutError', 'RetryError',
+        '_dev', '_sock', '_inc_sequence_number', '_drain_socket', '_q', '_receive_ipmi_msg', '_receive_raw',
+        '_send_ipmi_msg', '_send_raw', 'gettimeout', 'settimeout', 'recvfrom', 'verify', 'array',
         'cmdid', 'constants', 'decode_bridged_message', 'empty', 'encode_bridged_message', 'encode_ipmb_msg', 'get',
         'put', 'i2c_slave_read', 'ignore_rq_seq', 'ignore_sdu_length', 'int', 'ipmb_address', 'len', 'max_retries',
         'netfn', 'next_sequence_number', 'os', 'poll', 'py3_array_tobytes', 'read', 'routing', 'range', 'rq_lun',
@@ -345,10 +339,12 @@ class Shape(object):
         if isinstance(n, ast.For):
             return '.for_ %s %s %s %s' % (self.e(n.target), self.e(n.iter), self.block(n.body, ind),
                                          self.block(n.orelse, ind))
-        if isinstance(n, ast.Try) and not n.orelse and not n.finalbody and all(h.name is None for h in n.handlers):
+        if isinstance(n, ast.Try) and not n.orelse and all(h.name is None for h in n.handlers):
             hs = '.nil'
             for h in reversed(n.handlers):
                 hs = '(.cons %s %s %s)' % (self.e(h.type) if h.type is not None else '.none', self.block(h.body, ind), hs)
+            if n.finalbody:
+                return '.tryf %s %s %s' % (self.block(n.body, ind), hs, self.block(n.finalbody, ind))
             return '.try_ %s %s' % (self.block(n.body, ind), hs)
         if isinstance(n, ast.With) and len(n.items) == 1 and n.items[0].optional_vars is None:
             return '.with_ %s %s' % (self.e(n.items[0].context_expr), self.block(n.body, ind))
@@ -383,10 +379,13 @@ class Shape(object):
 
 
 SHAPES = [('rmcpSendAndReceive', 'pyipmi/interfaces/rmcp.py', 'Rmcp', '_send_and_receive'),
+          ('rmcpDrainSocket', 'pyipmi/interfaces/rmcp.py', 'Rmcp', '_drain_socket'),
           ('ipmbdevSendAndReceive', 'pyipmi/interfaces/ipmbdev.py', 'IpmbDev', '_send_and_receive'),
           ('ipmbdevReceiveRaw', 'pyipmi/interfaces/ipmbdev.py', 'IpmbDev', '_receive_raw'),
+          ('ipmbdevIsIpmcAccessible', 'pyipmi/interfaces/ipmbdev.py', 'IpmbDev', 'is_ipmc_accessible'),
           ('aardvarkSendAndReceive', 'pyipmi/interfaces/aardvark.py', 'Aardvark', '_send_and_receive'),
-          ('aardvarkReceiveRaw', 'pyipmi/interfaces/aardvark.py', 'Aardvark', '_receive_raw')]
+          ('aardvarkReceiveRaw', 'pyipmi/interfaces/aardvark.py', 'Aardvark', '_receive_raw'),
+          ('aardvarkIsIpmcAccessible', 'pyipmi/interfaces/aardvark.py', 'Aardvark', 'is_ipmc_accessible')]
 
 
 def shapes():
@@ -398,6 +397,7 @@ def shapes():
             tree = ast.parse(repo.read(rel))
             fn = _fn(_cls(tree, cname, rel), fname, rel)
         except (TieBroken, SyntaxError, IOError) as e:
+            # (as shipped there is no Rmcp._drain_socket: the value then differs from Loops.Shape.rmcpDrainSocket)
             out.append((name, what, 'NOT FOUND: %s' % e, '{ params := 0, body := py[.other 0] }'))
             continue
         sh = Shape(fn)
@@ -409,8 +409,8 @@ def shapes():
 # values of the pinned source: written for a constant that cannot be read any more, so that the models and
 # their lemmas keep building and the correspondence run still shows where the changed code differs from the
 # verified loop; `notExtracted` counts them and `Props.C04.gen_loop_shape` demands 0
-PINNED = {'cmdSendMessage': 52, 'rmcpSeqInc': 1, 'rmcpSeqMod': 64, 'rmcpSeqInit': 0, 'rmcpDefaultMaxRetries': 0,
-          'rmcpOuterExtra': 1, 'rmcpInnerExtra': 1, 'rmcpDataLo': 6, 'rmcpDataHi': 1, 'rmcpBridgeIdx': 5,
+PINNED = {'cmdSendMessage': 52, 'netfnApp': 6, 'rmcpSeqInc': 1, 'rmcpSeqMod': 64, 'rmcpSeqInit': 0, 'rmcpDefaultMaxRetries': 0,
+          'rmcpOuterExtra': 1, 'rmcpInnerExtra': 1, 'rmcpDataLo': 6, 'rmcpDataHi': 1,
           'ipmbdevSeqInc': 1, 'ipmbdevSeqMod': 64, 'ipmbdevSeqInit': 0, 'ipmbdevMaxRetries': 3,
           'ipmbdevTimeoutTicks': 16, 'ipmbdevAttemptsExtra': 0,
           'aardvarkSeqInc': 1, 'aardvarkSeqMod': 64, 'aardvarkSeqInit': 0, 'aardvarkMaxRetries': 3,
@@ -455,9 +455,14 @@ def extract():
                                           'rmcp next_sequence_number')))
     put('rmcpDefaultMaxRetries', lambda: int(_init_default(rmcp_cls(), 'max_retries', rel)))
     put(('rmcpOuterExtra', 'rmcpInnerExtra'), lambda: _loop_extras(_fn(rmcp_cls(), '_send_and_receive', rel), 2, rel))
-    put(('rmcpDataLo', 'rmcpDataHi', 'rmcpBridgeIdx'),
+    put(('rmcpDataLo', 'rmcpDataHi'),
         lambda: _rmcp_slice_and_index(_fn(rmcp_cls(), '_send_and_receive', rel), rel))
     put('cmdSendMessage', const_send_message)
+
+    def const_netfn_app():
+        from pyipmi.msgs import constants
+        return int(constants.NETFN_APP)
+    put('netfnApp', const_netfn_app)
     # ---- ipmb-dev, aardvark
     for key, rel2, cname in (('ipmbdev', 'pyipmi/interfaces/ipmbdev.py', 'IpmbDev'),
                              ('aardvark', 'pyipmi/interfaces/aardvark.py', 'Aardvark')):
@@ -472,8 +477,8 @@ def extract():
     return vals, problems, missing
 
 
-ORDER = ['cmdSendMessage', 'rmcpSeqInc', 'rmcpSeqMod', 'rmcpSeqInit', 'rmcpDefaultMaxRetries',
-         'rmcpOuterExtra', 'rmcpInnerExtra', 'rmcpDataLo', 'rmcpDataHi', 'rmcpBridgeIdx',
+ORDER = ['cmdSendMessage', 'netfnApp', 'rmcpSeqInc', 'rmcpSeqMod', 'rmcpSeqInit', 'rmcpDefaultMaxRetries',
+         'rmcpOuterExtra', 'rmcpInnerExtra', 'rmcpDataLo', 'rmcpDataHi',
          'ipmbdevSeqInc', 'ipmbdevSeqMod', 'ipmbdevSeqInit', 'ipmbdevMaxRetries', 'ipmbdevTimeoutTicks',
          'ipmbdevAttemptsExtra',
          'aardvarkSeqInc', 'aardvarkSeqMod', 'aardvarkSeqInit', 'aardvarkMaxRetries', 'aardvarkTimeoutTicks',
